@@ -17,8 +17,10 @@ from fractions import Fraction as F
 from pathlib import Path
 
 sys.path.insert(0, str(Path(__file__).resolve().parent))
+sys.path.insert(0, str(Path(__file__).resolve().parent.parent / 'translate'))
 import lib  # noqa
 import c13_gen as gen  # noqa
+import c14_e2n  # noqa
 from c13 import mesh_at, apply_mod_py, new_connectivity, rebuild_history, strip  # noqa
 
 PID = 'C14'
@@ -66,6 +68,8 @@ def detect_metric_variant():
 
 
 VARIANT = {'by_id': False}
+PROG_FAIL = set()       # (case id, query index) where the translated program differs from the impl
+TIE = {'mode': 'T', 'reason': ''}
 
 
 # --------------------------------------------------------------- geometry
@@ -215,14 +219,26 @@ def scattered_metrics(mesh, eids):
     return {e: pools[typ[e]].pop(0) for e in eids}
 
 
+def pattern(mesh, q, eids):
+    """rows of the incidence matrix the call works with, each as the list of
+    touching element ids: computed (order1_only) / the mesh's own matrix passed
+    as `incidence=` (its own order1_only; the call's flag is then ignored) / an
+    arbitrary matrix given as `incidence=`"""
+    inc = q.get('inc')
+    if inc and inc['kind'] == 'given':
+        return [[e for e in eids if inc['cols'][str(e)][i]] for i in range(inc['nrows'])]
+    nodes, conn = view(mesh, inc['order1'] if inc else q['order1'])
+    return [[e for e in eids if nid in conn[e]] for nid in nodes]
+
+
 def expected_e2n(mesh, q, eids, weights):
-    nodes, conn = view(mesh, q['order1'])
+    rows = pattern(mesh, q, eids)
     w = len(next(iter(q['values'].values())))
+    colcount = {e: sum(1 for t in rows if e in t) for e in eids}
     out = []
-    for nid in nodes:
-        touching = [e for e in eids if nid in conn[e]]
+    for touching in rows:
         if q['mode'] == 'effective':
-            out.append([sum(F(q['values'][str(e)][c], len(set(conn[e]))) for e in touching)
+            out.append([sum(F(q['values'][str(e)][c], colcount[e]) for e in touching)
                         for c in range(w)])
         else:
             s = sum(weights[e] for e in touching)
@@ -234,11 +250,27 @@ def expected_e2n(mesh, q, eids, weights):
     return out
 
 
+def zero_weight_sum(mesh, q):
+    """signed implicit weights (raise_negative_volume=False on a mesh with
+    inverted elements) that cancel at some node: the mean is not defined there"""
+    eids = sorted(e for _, rows in mesh['blocks'] for e, _ in rows)
+    mu = metrics_by_id(mesh)
+    if any(mu[e] is None for e in eids):
+        return False
+    return any(t and sum(mu[e] for e in t) == 0 for t in pattern(mesh, q, eids))
+
+
 def oracle(mesh, q, r):
     """None | 'unsupported' | description of the violated clause"""
     tags = mesh.get('tags', {})
     far_f32 = (q.get('kind') == 'e2n' and q.get('weight') == 'implicit' and q.get('mode') == 'mean'
                and q.get('f32_kernel') and bool(tags.get('offset')))
+    if q['kind'] == 'e2n' and q['mode'] not in ('mean', 'effective'):
+        # not a mode of the property; the correspondence says what the code does with it
+        return 'unsupported' if r.get('exc') == 'ValueError' else None
+    if 'exc' in r and q['kind'] == 'e2n' and q['mode'] == 'mean' and q['weight'] == 'implicit' \
+            and q.get('raise_neg', True) and r['exc'] == 'ValueError' and mesh.get('tags', {}).get('inverted'):
+        return 'unsupported'            # not a mesh with positive elements: refused as documented
     if 'exc' in r and far_f32 and r['exc'] == 'ValueError' and 'Negative metric' in r.get('msg', ''):
         return 'volume-kernel-origin-fan'
     if 'exc' in r:
@@ -287,7 +319,9 @@ def oracle(mesh, q, r):
     w = len(exp and next((x for x in exp if x is not None), []))
     bad = [i for i, row in enumerate(exp) if row is not None and
            any(abs(got[i][c] - row[c]) > tol for c in range(w))]
-    if q['mode'] == 'effective':
+    if q['mode'] == 'effective' and all(any(e in t for t in pattern(mesh, q, eids)) for e in eids):
+        # (an element without a node — possible only with an `incidence=` argument — has nowhere
+        # to put its value: hypothesis of C14_e2n_effective)
         for c in range(w):
             if abs(sum(g[c] for g in got) - sum(F(q['values'][str(e)][c]) for e in eids)) > tol * len(got):
                 return 'grand total not conserved'
@@ -315,25 +349,42 @@ def field_lit(rows):
     return lib.coq_list([lib.coq_list([qlit(x) for x in row]) for row in rows])
 
 
+def bmat_lit(rows, nc):
+    return (f"(mkb {len(rows)} {nc} " +
+            lib.coq_list([lib.coq_list(['true' if x else 'false' for x in r]) for r in rows]) + ')')
+
+
 def q_to_coq(mesh, q, eids):
     b = lambda x: 'true' if x else 'false'  # noqa
     if q['kind'] == 'n2e':
-        return f"CN2E {field_lit(q['data'])} {len(q['data'][0])}"
+        return f"XN2E {field_lit(q['data'])} {len(q['data'][0])}"
+    omit = set(q.get('omit', []))
+    opt = lambda key, txt: 'None' if key in omit else f'(Some {txt})'  # noqa
     w = len(next(iter(q['values'].values())))
     vrows = [q['values'][str(e)] for e in eids]
     if q.get('drop_last'):
         vrows = vrows[:-1]
     v = field_lit(vrows)
+    mu = metrics_by_id(mesh)
+    tbl = lib.coq_list([f'({lib.coq_Z(e)}, {qlit(m)})' for e, m in sorted(mu.items())
+                        if m is not None])
+    wimp = f"(WImplicit {'true' if VARIANT['by_id'] else 'false'} (table_lookup {tbl}))"
     if q['weight'] == 'false':
         wm = 'WFalse'
     elif q['weight'] == 'explicit':
         wm = '(WExplicit ' + lib.coq_list([qlit(q['weights'][str(e)]) for e in eids]) + ')'
     else:
-        mu = metrics_by_id(mesh)
-        tbl = lib.coq_list([f'({lib.coq_Z(e)}, {qlit(m)})' for e, m in sorted(mu.items())
-                            if m is not None])
-        wm = f"(WImplicit {'true' if VARIANT['by_id'] else 'false'} (table_lookup {tbl}))"
-    return f"CE2N {b(q['mode'] == 'effective')} {b(q['order1'])} {wm} {v} {w}"
+        wm = wimp
+    inc = q.get('inc')
+    if not inc:
+        ic = 'None'
+    elif inc['kind'] == 'own':
+        ic = f"(Some (IOwn {b(inc['order1'])}))"
+    else:
+        rows = [[inc['cols'][str(e)][i] for e in eids] for i in range(inc['nrows'])]
+        ic = f"(Some (IGiven {bmat_lit(rows, len(eids))}))"
+    return (f"XCALL (mkcall {opt('mode', lib.coq_str(q['mode']))} {opt('order1', b(q['order1']))} "
+            f"{opt('raise_neg', b(q.get('raise_neg', True)))} {opt('weight', wm)} {wimp} {ic} {v} {w})")
 
 
 def res_to_coq(r):
@@ -346,7 +397,7 @@ def res_to_coq(r):
 HEADER = '''From Coq Require Import ZArith QArith String List.
 Import ListNotations.
 From FV.C13 Require Import Model.
-From FV.C14 Require Import Model.
+From FV.C14 Require Import Model Prog Corr.
 Open Scope string_scope.
 Set Printing Width 100000.
 Set Printing Depth 100000.
@@ -393,7 +444,7 @@ def coq_check(ctx, cases, results, name):
             qs = ';\n    '.join(
                 f"({q_to_coq(mesh, c['queries'][qi], eids)}, {qlit(tol_of(c['queries'][qi]))}, "
                 f"{res_to_coq(rs[qi])})" for qi in idx)
-            items.append(f"({k}%nat, check_ccase {gen.mesh_to_coq(mesh, lib)}\n   "
+            items.append(f"({k}%nat, check_xcase {gen.mesh_to_coq(mesh, lib)}\n   "
                          f"{lib.coq_list([lib.coq_Z(e) for e in eids])}\n   [{qs}])")
         txt = HEADER + 'Definition cases : list (nat * list nat) := [\n' + ';\n'.join(items) + '].\n'
         txt += 'Goal True. idtac "@@ failing". Abort.\n'
@@ -410,8 +461,14 @@ def coq_check(ctx, cases, results, name):
         for m in re.finditer(r'\((\d+),\s*\[([0-9;\s]*)\]\)', t):
             c, idx, _, _ = chunk[int(m.group(1))]
             if out[c['id']] is not None:
-                out[c['id']] += [999 if int(x) == 999 else idx[int(x)]
-                                 for x in re.findall(r'\d+', m.group(2))]
+                for x in re.findall(r'\d+', m.group(2)):
+                    x = int(x)
+                    if x >= 1000:       # the translated program (not the hand model) differs
+                        PROG_FAIL.add((c['id'], idx[x - 1000]))
+                        x -= 1000
+                    qi = 999 if x == 999 else idx[x]
+                    if qi not in out[c['id']]:
+                        out[c['id']].append(qi)
     return out
 
 
@@ -456,10 +513,52 @@ def queries_for(rng, mesh):
         qs.append(q)
         qs.append({'kind': 'e2n', 'mode': 'effective', 'weight': 'false', 'order1': o,
                    'values': values(False)})
+    inverted = bool(mesh.get('tags', {}).get('inverted'))
+    if inverted:
+        # not "positive elements": raise_negative_volume=True must refuse, False uses the signed metric
+        qs.append({'kind': 'e2n', 'mode': 'mean', 'weight': 'implicit', 'order1': False,
+                   'raise_neg': False, 'values': values(rng.random() < 0.5)})
+    # a string that is not a mode
+    qs.append({'kind': 'e2n', 'mode': rng.choice(['median', 'Mean', 'MEAN', '', 'effective ', 'sum',
+                                                  'means', 'nodal']),
+               'weight': rng.choice(['false', 'implicit']), 'order1': False, 'values': values(False)})
     for q in qs:
-        if q['kind'] == 'e2n':
-            q['vdtype'] = rng.choice(['float', 'int', 'int'])
+        if q['kind'] != 'e2n':
+            continue
+        q['vdtype'] = rng.choice(['float', 'int', 'int'])
+        q.setdefault('raise_neg', True if inverted else rng.random() < 0.8)
+        # the `incidence=` argument: the mesh's own matrix (built with ITS order1_only; the call's
+        # flag is then ignored) or an arbitrary boolean matrix with one column per element
+        u = rng.random()
+        if u < 0.2:
+            q['inc'] = {'kind': 'own', 'order1': rng.choice(o1s)}
+        elif u < 0.35:
+            k = rng.randint(1, 5)
+            q['inc'] = {'kind': 'given', 'nrows': k,
+                        'cols': {str(e): [int(rng.random() < 0.5) for _ in range(k)] for e in eids}}
+        # keywords left out of the call where the documented default says the same
+        can = [key for key, dv in (('mode', q['mode'] == 'mean'), ('order1', q['order1'] is False),
+                                   ('raise_neg', q['raise_neg'] is True),
+                                   ('weight', q['weight'] == 'implicit')) if dv]
+        u = rng.random()
+        q['omit'] = can if u < 0.4 else [key for key in can if rng.random() < 0.5] if u < 0.7 else []
+    qs = [q for q in qs if not (q['kind'] == 'e2n' and q['mode'] == 'mean' and q['weight'] == 'implicit'
+                                and inverted and not q['raise_neg'] and zero_weight_sum(mesh, q))]
     return qs
+
+
+def invert_some(mesh, rng):
+    """turn some tets / hexes inside out (swap two nodes / bottom and top face):
+    their signed volume becomes negative — outside "positive elements", used
+    for the raise_negative_volume glue"""
+    n = 0
+    for t, rows in mesh['blocks']:
+        for i, (e, c) in enumerate(rows):
+            if t in ('tet', 'hex') and (rng.random() < 0.4 or (n == 0 and i == len(rows) - 1)):
+                rows[i] = [e, [c[1], c[0]] + list(c[2:])] if t == 'tet' else \
+                    [e, list(c[4:8]) + list(c[0:4])]
+                n += 1
+    mesh['tags']['inverted'] = True
 
 
 def malformed(rng, mesh):
@@ -477,6 +576,8 @@ def malformed(rng, mesh):
 
 def gen_cases(ctx):
     n_mesh = 80 if ctx.tier == 'quick' else 500
+    if TIE['mode'] != 'T':
+        n_mesh = max(n_mesh, 220)       # widened correspondence when the translator is not in force
     cases = []
     kinds = ['tri', 'quad', 'mixed2d', 'tet', 'tet2', 'hex', 'mixed3dv', 'hex2', 'mixed3d2',
              'mixed2d', 'mixed3d', 'mixed3dv']
@@ -497,12 +598,14 @@ def gen_cases(ctx):
             off = ctx.rng.choice(OFFSETS)
             translate(mesh, off, sc)
             mesh['tags']['offset'] = list(off)
+        if kind in ('tet', 'hex') and ctx.rng.random() < 0.5:
+            invert_some(mesh, ctx.rng)
         cases.append({'id': len(cases), 'mesh': mesh, 'queries': queries_for(ctx.rng, mesh)})
     # history stream on ONE object: conversions / connectivity assignment
     # (fem_data.elements.data = rows of other elements: shapes stay valid) / the
     # same conversions again; the model is evaluated on the modified mesh
     for c in [x for x in cases if len(x['mesh']['blocks']) == 1
-              and len(x['mesh']['blocks'][0][1]) > 1][::2]:
+              and len(x['mesh']['blocks'][0][1]) > 1 and not x['mesh']['tags'].get('inverted')][::2]:
         mesh = c['mesh']
         t, rows = mesh['blocks'][0]
         probe = [q for q in c['queries'] if q['kind'] == 'n2e' or
@@ -588,6 +691,8 @@ def restrict_query(q, mesh):
         q['values'] = {k: v for k, v in q['values'].items() if k in eids}
         if 'weights' in q:
             q['weights'] = {k: v for k, v in q['weights'].items() if k in eids}
+        if q.get('inc') and q['inc']['kind'] == 'given':
+            q['inc']['cols'] = {k: v for k, v in q['inc']['cols'].items() if k in eids}
     return q
 
 
@@ -711,7 +816,10 @@ def report(ctx, cases, ev, do_shrink=True):
                           summarise(r), 'correspondence C14 (Model.run_cquery)',
                           found_input=has_oracle, signature=sig,
                           what=f"model and implementation differ on {q['kind']} "
-                               f"{ {k: q.get(k) for k in ('mode', 'weight', 'order1')} }")
+                               f"{ {k: q.get(k) for k in ('mode', 'weight', 'order1', 'raise_neg', 'omit')} }"
+                               + (' [incidence= given]' if q.get('inc') else '')
+                               + (' [the translated program differs as well]'
+                                  if (c['id'], qi) in PROG_FAIL else ''))
     return n_oracle, n_corr
 
 
@@ -756,10 +864,54 @@ def main(ctx):
     except (ValueError, SyntaxError, OSError) as e:
         # not a violation: the variant is then decided by behaviour (see evaluate)
         ctx.notes['metric_mix_variant'] = 'not recognised syntactically: ' + str(e)
-    proof_ok, log = ctx.build_props('C14/Props.v', scan_dirs=[lib.COQ / 'C14', lib.COQ / 'C13'])
+    # ---- tie T: convert_elemental2nodal executed symbolically -> gen/E2NProg.v
+    gen_file = lib.COQ / 'C14' / 'gen' / 'E2NProg.v'
+    baseline = lib.COQ / 'C14' / 'gen_baseline' / 'E2NProg.v'
+    try:
+        text, info = c14_e2n.translate(lib.REPO)
+        lib.write_if_changed(gen_file, text)
+        ctx.sources['signal_processor.py:' + '+'.join(info['methods'])] = info['sha']
+        ctx.notes['e2n_translated'] = {'methods_read': info['methods'],
+                                       'mode_literals': info['mode_literals'],
+                                       'defaults': info['defaults']}
+    except c14_e2n.Untranslatable as e:
+        TIE.update(mode='H', reason=f'translator could not read convert_elemental2nodal: {e}')
+        ctx.log(TIE['reason'], '-> baseline table + widened correspondence')
+        lib.write_if_changed(gen_file, baseline.read_text())
+    scan = [lib.COQ / 'C14', lib.COQ / 'C13']
+    proof_ok, log = ctx.build_props('C14/Props.v', extra_targets=['C14/Corr.vo'], scan_dirs=scan)
+    if not proof_ok and TIE['mode'] == 'T':
+        # the table read from the source is not the reference table (or the proofs broke): the
+        # theorems are then built about the committed baseline table, which becomes the hand
+        # model of that region, and the correspondence is widened — a changed body means
+        # "search deeper", a violation needs a failing input
+        diff = ''
+        ok2, _, _ = lib.coq_make(['C14/Corr.vo'])
+        if ok2:
+            rc, o, err = ctx.coq_eval('tablediff', 'From FV.C14 Require Import Prog Corr.\n'
+                                      'Set Printing Width 100000.\nGoal True. idtac "@@ diff". Abort.\n'
+                                      'Eval vm_compute in table_diff.\n')
+            diff = ' '.join(lib.parse_marked(o).get('diff', '').split())[:600] if rc == 0 else ''
+        TIE.update(mode='H', reason='the program read from convert_elemental2nodal is not the '
+                   'reference table' + (f' (configurations that differ: {diff})' if diff else
+                                        ' / Props.v does not build against it'))
+        ctx.log(TIE['reason'], '-> baseline table + widened correspondence')
+        lib.write_if_changed(gen_file, baseline.read_text())
+        first_log = log
+        ctx.obligations.clear()
+        proof_ok, log = ctx.build_props('C14/Props.v', extra_targets=['C14/Corr.vo'], scan_dirs=scan)
+        if not proof_ok:
+            log = first_log + log
+    if TIE['mode'] != 'T':
+        for o in ctx.obligations:
+            if 'translated' in o['name']:
+                o['note'] = (o.get('note') or '') + ' [about the baseline table coq/C14/gen_baseline/' \
+                    'E2NProg.v: ' + TIE['reason'][:200] + ']'
+        ctx.trusted.append('baseline table coq/C14/gen_baseline/E2NProg.v as the hand model of the '
+                           'straight-line part of convert_elemental2nodal (' + TIE['reason'][:300] + ')')
     if not proof_ok:
         ctx.notes['build_log_tail'] = log[-1500:]
-        lib.coq_make(['C14/Model.vo'])
+        lib.coq_make(['C14/Corr.vo'])
     cases = []
     for c in load_corpus():
         c['id'] = len(cases)
@@ -809,6 +961,12 @@ def main(ctx):
     n_oracle, n_corr = report(ctx, cases, ev)
     ctx.corr = {'cases': nq, 'meshes': len(cases), 'corpus_meshes': n_corpus,
                 'disagreements': n_corr, 'tolerance': f'2^-{TOL_BITS} * (1 + max|input|)'}
+    ctx.notes['tie_e2n_program'] = (
+        'T (convert_elemental2nodal executed symbolically on this tree -> coq/C14/gen/E2NProg.v; '
+        'C14_e2n_program_translated checks it against the reference table; both the hand model and the '
+        'translated program are evaluated in Coq on every e2n call)' if TIE['mode'] == 'T' else
+        f"H ({TIE['reason']}; baseline model + widened correspondence, {nq} cases)")
+    ctx.notes['translated_program_disagreements'] = len(PROG_FAIL)
     ctx.notes['search_evaluations'] = nq
     ctx.notes['impl_property_failures'] = n_oracle
     if not proof_ok and n_oracle == 0 and n_corr == 0:
